@@ -36,7 +36,7 @@ ANCHORS = {
 }
 
 
-def _rooted(node, roots=('self', 'cls')):
+def _rooted(node, roots=('self', 'cls'), local=None):
     """Is this Attribute/Subscript chain rooted at one of the names in
     `roots` (self / cls / a parameter that may be a shared object), or does it
     go through `.Attributes` (model classes are shared by every thread)?"""
@@ -47,6 +47,9 @@ def _rooted(node, roots=('self', 'cls')):
         node = node.value
     if via_attributes and isinstance(node, ast.Name):
         return True
+    if isinstance(node, ast.Name) and local is not None and \
+                                                   node.id not in local:
+        return True         # rooted at a global name
     return isinstance(node, ast.Name) and node.id in roots
 
 
@@ -73,6 +76,36 @@ class _Scan(ast.NodeVisitor):
             if 'ctx' not in a.arg and a.arg not in ('inst', 'value', 'element',
                                         'parent', 'doc', 'retval', 'string'):
                 roots.add(a.arg)
+        # names bound inside the function (anything else a store is rooted at
+        # is a global: a module-level object or a class, shared by definition)
+        local = set(a.arg for a in node.args.args + node.args.kwonlyargs)
+        if node.args.vararg:
+            local.add(node.args.vararg.arg)
+        if node.args.kwarg:
+            local.add(node.args.kwarg.arg)
+        for n in ast.walk(node):
+            if isinstance(n, ast.Name) and isinstance(n.ctx, ast.Store):
+                local.add(n.id)
+            elif isinstance(n, (ast.Import, ast.ImportFrom)):
+                for al in n.names:
+                    local.add((al.asname or al.name).split('.')[0])
+        # local aliases of shared structures:  cache = SomeClass._table
+        changed = True
+        while changed:
+            changed = False
+            for n in ast.walk(node):
+                if isinstance(n, ast.Assign) and len(n.targets) == 1 and \
+                        isinstance(n.targets[0], ast.Name) and \
+                        isinstance(n.value, (ast.Attribute, ast.Subscript)):
+                    base = n.value
+                    while isinstance(base, (ast.Attribute, ast.Subscript)):
+                        base = base.value
+                    if isinstance(base, ast.Name) and (base.id in roots or
+                            base.id not in local) and \
+                            n.targets[0].id not in roots:
+                        roots.add(n.targets[0].id)
+                        changed = True
+        self._globals_shared = local
         globs = set()
         for n in ast.walk(node):
             if isinstance(n, ast.Global):
@@ -88,14 +121,14 @@ class _Scan(ast.NodeVisitor):
             for t in targets:
                 for tt in ast.walk(t):
                     if isinstance(tt, (ast.Attribute, ast.Subscript)) and \
-                                                      _rooted(tt, roots):
+                                                      _rooted(tt, roots, local):
                         why = why or 'store through self/cls/parameter'
                     if isinstance(tt, ast.Name) and tt.id in globs:
                         why = why or 'global assignment'
             if isinstance(n, ast.Call) and isinstance(n.func, ast.Attribute) \
                     and n.func.attr in MUTATORS and \
                     isinstance(n.func.value, (ast.Attribute, ast.Subscript)) \
-                    and _rooted(n.func.value, roots):
+                    and _rooted(n.func.value, roots, local):
                 why = why or 'mutator call on self/cls/parameter attribute'
         if why:
             self.found[(self.rel, node.name)] = why
